@@ -5118,6 +5118,25 @@ class NetCDFWrite(IOWrite):
                 for c in ef.constructs.filter_by_data(todict=True).values():
                     c.to_memory(inplace=True)
 
+            # A construct to be appended may itself still have unread
+            # data in the file that is appended to: append an
+            # in-memory copy of it (the construct is left as it is).
+            realname = os.path.realpath(filename)
+            fields = list(fields)
+            for i, f in enumerate(fields):
+                if realname in [
+                    os.path.realpath(x)
+                    for x in self.implementation.get_filenames(f)
+                ]:
+                    f = self.implementation.copy_construct(f)
+                    if not self.implementation.is_domain(f):
+                        f.to_memory(inplace=True)
+
+                    for c in f.constructs.filter_by_data(todict=True).values():
+                        c.to_memory(inplace=True)
+
+                    fields[i] = f
+
             # Fail ASAP if can't perform the operation:
             # 1. because attempting to append at least one field with group(s)
             for f in fields:
